@@ -34,3 +34,7 @@ chk('C17', 'proof',
     'Per-function proof (from the real source) of the serializer framing table, the deserializer collection / hand-off table and the clock-sync FSM, plus refinement proofs of ClockDivider and EdgeDetector. The end-to-end delivery clause is NOT proved: a bounded stand-in runs the real link for ratios 4..16 (quick) / 4..64 and 434 (thorough), gaps 0..2T, two receiver pacings, with an independent software 8N1 receiver on the line.',
     'The protocol-level clause (product of five machines with a timing parameter) is outside the deductive reach chosen here (DESIGN section 4 / C17); its evidence is the bounded part only.',
     'contract-based deductive verification of the per-function tables (AST -> VCs, z3) + bounded simulation stand-in for the link clause', 'DESIGN.md section 4 / C17')
+chk('C11', 'proof',
+    'Every mutator of the driver / child / wire tables in py4hw/base.py is proved in heap mode (objects as references, attributes as maps, quantified frame conditions) to either update the table at exactly one key or raise with ALL tables, names and parents unchanged -- for arbitrary prior heaps, hence all construction sequences. The integrity-check and library-acceptance clauses are exercised by a bounded native stand-in (single-fault variants of every registered library block, random construction sequences), labelled bounded.',
+    'checkIntegrity itself (recursive, five loops) is not under contract yet: its clause is bounded. Callee contracts getFullPath/isPrimitive/addSink are assumed.',
+    'contract-based deductive verification in heap mode (AST -> quantified VCs, z3) + bounded native stand-in', 'DESIGN.md section 4 / C11')
